@@ -22,3 +22,5 @@ def run(prog, rep):
     _ru.run_static_memo(prog, rep)
     from ..rules import r_io as _rio2
     _rio2.run_swapped(prog, rep)
+    from ..rules import r_unit as _ru2
+    _ru2.run_scale_positions(prog, rep)
